@@ -59,7 +59,23 @@ func BuildEnvelope(
 	if config.GetTotalShares() > 0 {
 		totalShares = config.GetTotalShares()
 	}
-	if threshold > 0 && totalShares < threshold+1 {
+
+	// Recovery needs threshold+1 distinct shares. Count the shares that will
+	// actually be placed (the distribution below stops when the shares run
+	// out) in grants that at least one keypair can decrypt.
+	var placedShares, usableShares uint64
+	for _, gc := range grants {
+		sc := uint64(gc.GetShareCount())
+		if sc == 0 {
+			sc = 1
+		}
+		sc = min(sc, uint64(totalShares)-placedShares)
+		placedShares += sc
+		if len(gc.GetKeypairIndexes()) != 0 {
+			usableShares += sc
+		}
+	}
+	if usableShares < uint64(threshold)+1 {
 		return nil, ErrInvalidThreshold
 	}
 
